@@ -121,3 +121,31 @@ pub fn fmt_tag(case: &Case) -> String {
 pub fn absorb(ctx: &mut Ctx, actor: &str, st: &IoStats) {
     ctx.absorb(actor, st);
 }
+
+/// A file of `n` concatenated XZ streams (knob "streams"), each holding a piece of `data`, joined
+/// by stream padding of a multiple of four zero bytes (drawn from knob "pad_seed"). Returns the
+/// file and the (start, end) offsets of the streams. With n <= 1 this is `prepare_stream`.
+pub fn prepare_file(case: &Case, data: &[u8]) -> Result<(Vec<u8>, Vec<(usize, usize)>), Violation> {
+    let n = case.knob_or("streams", 1).max(1) as usize;
+    if case.fmt != "xz" || n <= 1 {
+        let s = prepare_stream(case, data)?;
+        let l = s.len();
+        return Ok((s, vec![(0, l)]));
+    }
+    let mut rng = simcore::rng::Rng::new(case.knob("pad_seed") as u64 ^ 0x9A);
+    let mut file = Vec::new();
+    let mut spans = Vec::new();
+    let per = data.len() / n;
+    for i in 0..n {
+        let piece = if i + 1 == n { &data[i * per..] } else { &data[i * per..(i + 1) * per] };
+        let s = prepare_stream(case, piece)?;
+        let start = file.len();
+        file.extend_from_slice(&s);
+        spans.push((start, file.len()));
+        if i + 1 < n || rng.pct(30) {
+            let pad = *rng.pick(&[0usize, 0, 4, 8, 12]);
+            file.extend(std::iter::repeat(0u8).take(pad));
+        }
+    }
+    Ok((file, spans))
+}
